@@ -2,7 +2,8 @@ package main
 
 // C17 profile: every route x method x identity class x admin list x ACL header name,
 // every client address class x allowed CIDR for /config; state-changing requests with
-// valid and invalid bodies against worlds of answering / failing upstreams.
+// valid and invalid bodies against worlds of answering / failing upstreams; the configuration
+// paths (command line, --config file, both) through the real binary: c17launch.go.
 
 import (
 	"encoding/json"
@@ -44,6 +45,9 @@ type C17In struct {
 	Lookup    []string    `json:"lookup"`    // per stub nsqlookupd L0,L1: "ok:N0,N2" | "500" | "garbage" | "wrongtype"
 	Nsqd      []string    `json:"nsqd"`      // per stub nsqd N0..N3: "topic" | "notopic" | "500" | "infofail" | "nobcast" | "statsfail"
 	PostFail  []string    `json:"post_fail"` // names of stubs that fail POSTs
+	// configuration paths: the request goes to the real apps/nsqadmin binary started from this
+	// launch (Admins / Header / CIDR then say what the launch means, for generation and tags)
+	Launch *LaunchIn `json:"launch,omitempty"`
 }
 
 type cluster struct {
@@ -114,15 +118,26 @@ func contains(xs []string, x string) bool {
 // ---------------------------------------------------------------- one case
 
 func runC17Case(o *lib.Out, cl *cluster, in C17In) {
-	lnames, nnames := modeLists(in.Mode)
-	cfg := AdminCfg{Admins: in.Admins, Header: in.Header, CIDR: in.CIDR}
-	for _, l := range lnames {
-		cfg.Lookupds = append(cfg.Lookupds, cl.addr(l))
+	var lnames, nnames []string
+	var a *Admin
+	var ln *launched
+	if in.Launch != nil {
+		// the case's world lists every stub the launch could mean: which of them are configured is the judge's business
+		// (every stub the launch names anywhere, on the command line or in the file)
+		lnames, nnames = in.Launch.stubsNamed()
+		ln = getLaunched(cl, in.Launch)
+		a = &Admin{addr: ln.addr}
+	} else {
+		lnames, nnames = modeLists(in.Mode)
+		cfg := AdminCfg{Admins: in.Admins, Header: in.Header, CIDR: in.CIDR}
+		for _, l := range lnames {
+			cfg.Lookupds = append(cfg.Lookupds, cl.addr(l))
+		}
+		for _, n := range nnames {
+			cfg.Nsqds = append(cfg.Nsqds, cl.addr(n))
+		}
+		a = getAdmin(cfg)
 	}
-	for _, n := range nnames {
-		cfg.Nsqds = append(cfg.Nsqds, cl.addr(n))
-	}
-	a := getAdmin(cfg)
 
 	// the topic the upstream answers are about
 	topic := in.Topic
@@ -254,9 +269,26 @@ func runC17Case(o *lib.Out, cl *cluster, in C17In) {
 		_, ipnet, _ := net.ParseCIDR(in.CIDR)
 		inside = net.JoinHostPort(ipnet.IP.String(), "1")
 	}
+	// the option read (and put back) from an address that is allowed
+	readOpt := func(method string, body []byte) (int, []byte) {
+		return a.direct(method, path, nil, inside, body)
+	}
+	if ln != nil {
+		// over a connection from a loopback address inside the CIDR in force; when there is none
+		// (or nsqadmin is not up) what the option holds cannot be observed
+		ip := insideIP(in.CIDR)
+		isConfig = isConfig && ip != "" && ln.up
+		readOpt = func(method string, body []byte) (int, []byte) {
+			st, b, err := a.wire(ip, method, path, nil, body)
+			if err != nil {
+				lib.Fatalf("wire request %s %s from %s: %v", method, path, ip, err)
+			}
+			return st, b
+		}
+	}
 	var before []byte
 	if isConfig {
-		_, before = a.direct("GET", path, nil, inside, nil)
+		_, before = readOpt("GET", nil)
 	}
 
 	cl.rec.Reset()
@@ -266,7 +298,10 @@ func runC17Case(o *lib.Out, cl *cluster, in C17In) {
 	if in.BodyClass == "toobig" {
 		body0 = []byte(strings.Repeat("x", 1024*1024+1))
 	}
-	if in.Transport == "wire" {
+	if ln != nil && !ln.up {
+		// nsqadmin did not come up from this launch: nobody answers
+		status = 0
+	} else if in.Transport == "wire" {
 		var err error
 		status, body, err = a.wire(in.LocalIP, in.Method, path, in.Headers, body0)
 		if err != nil {
@@ -283,7 +318,7 @@ func runC17Case(o *lib.Out, cl *cluster, in C17In) {
 
 	swapped := false
 	if isConfig {
-		_, after := a.direct("GET", path, nil, inside, nil)
+		_, after := readOpt("GET", nil)
 		swapped = string(before) != string(after)
 		if swapped {
 			// put the original value back (log_level is read back as a number)
@@ -292,8 +327,8 @@ func runC17Case(o *lib.Out, cl *cluster, in C17In) {
 				names := map[string]string{"0": "debug", "1": "debug", "2": "info", "3": "warn", "4": "error", "5": "fatal"}
 				orig = []byte(names[strings.TrimSpace(string(before))])
 			}
-			st, _ := a.direct("PUT", path, nil, inside, orig)
-			_, again := a.direct("GET", path, nil, inside, nil)
+			st, _ := readOpt("PUT", orig)
+			_, again := readOpt("GET", nil)
 			if st != 200 || string(again) != string(before) {
 				lib.Fatalf("could not restore option %s (status %d, %q vs %q)", in.Opt, st, again, before)
 			}
@@ -301,7 +336,7 @@ func runC17Case(o *lib.Out, cl *cluster, in C17In) {
 	}
 
 	warn := false
-	if status == 200 && !isConfig {
+	if status == 200 && in.Pattern != "/config/:opt" {
 		var m struct {
 			Message string `json:"message"`
 		}
@@ -328,7 +363,9 @@ func runC17Case(o *lib.Out, cl *cluster, in C17In) {
 	if !in.BodyBad {
 		bodyTerm = fmt.Sprintf("(BodyJson %s %s %s)", cb(in.BodyTopic), cb(in.BodyChan), cb(in.BodyAct))
 	}
-	opt := map[string]string{"nsqlookupd_http_addresses": "OptLookupdAddrs", "log_level": "OptLogLevel", "http_address": "OptOtherKnown", "statsd_prefix": "OptOtherKnown"}[in.Opt]
+	opt := map[string]string{"nsqlookupd_http_addresses": "OptLookupdAddrs", "log_level": "OptLogLevel", "http_address": "OptOtherKnown", "statsd_prefix": "OptOtherKnown",
+		// the documented keys of the options the property depends on
+		"admin_users": "OptOtherKnown", "acl_http_header": "OptOtherKnown", "allow_config_from_cidr": "OptOtherKnown", "nsqd_http_addresses": "OptOtherKnown"}[in.Opt]
 	if opt == "" {
 		opt = "OptUnknown"
 	}
@@ -345,11 +382,21 @@ func runC17Case(o *lib.Out, cl *cluster, in C17In) {
 	if !strings.Contains(in.Pattern, ":node") {
 		node = ""
 	}
-	term := fmt.Sprintf("(J17.mk %s %s %s %s %s %s %s %s [%s] %s %s %s %s %s %s %s %d %s %s %s)",
-		cbl(in.Admins), cb(a.cfgHeader()), coqCIDR(in.CIDR), world, cbl(dead), cstr(in.Method), cstr(in.Pattern),
-		lib.CoqBool(in.Transport == "wire"), strings.Join(sent, ";"), remote,
-		cb(in.Topic), cb(in.Channel), cb(node), bodyTerm, opt, put,
-		status, lib.CoqBool(warn), coqCalls(calls), lib.CoqBool(swapped))
+	mkTerm := func(admins, header, cidr string) string {
+		return fmt.Sprintf("(J17.mk %s %s %s %s %s %s %s %s [%s] %s %s %s %s %s %s %s %d %s %s %s)",
+			admins, header, cidr, world, cbl(dead), cstr(in.Method), cstr(in.Pattern),
+			lib.CoqBool(in.Transport == "wire"), strings.Join(sent, ";"), remote,
+			cb(in.Topic), cb(in.Channel), cb(node), bodyTerm, opt, put,
+			status, lib.CoqBool(warn), coqCalls(calls), lib.CoqBool(swapped))
+	}
+	var term string
+	if ln != nil {
+		// the configuration is NOT stated: the judge works it out from the launch
+		launch, cidrTab := coqLaunch(cl, in.Launch)
+		term = fmt.Sprintf("(J17.CLaunch %s %s %s)", launch, cidrTab, mkTerm("[]", "[]", "None"))
+	} else {
+		term = "(J17.CReq " + mkTerm(cbl(in.Admins), cb(a.cfgHeader()), coqCIDR(in.CIDR)) + ")"
+	}
 
 	npost := 0
 	for _, c := range calls {
@@ -364,14 +411,30 @@ func runC17Case(o *lib.Out, cl *cluster, in C17In) {
 	tags := []string{"route=" + in.Method + " " + in.Pattern, "identity=" + in.IdClass, fmt.Sprintf("admins=%d", len(in.Admins)),
 		"header=" + in.Header, "transport=" + in.Transport, fmt.Sprintf("status=%d", status), "mode=" + in.Mode,
 		fmt.Sprintf("posts=%d", npost), fmt.Sprintf("warn=%v", warn)}
-	if isConfig {
+	if in.Pattern == "/config/:opt" {
 		tags = append(tags, cidrTag, "remote="+in.RemoteIP+in.LocalIP, fmt.Sprintf("swapped=%v", swapped), "put="+in.BodyClass, "opt="+in.Opt)
 	} else if in.BodyClass != "" {
 		tags = append(tags, "body="+in.BodyClass)
 	}
+	obs := map[string]interface{}{"status": status, "calls": calls, "swapped": swapped, "warn": warn}
+	if ln != nil {
+		tags = append(tags, "config-path", "launch-up="+strconv.FormatBool(ln.up), "listen-address-in="+in.Launch.HTTPIn, "args="+in.Launch.ArgStyle)
+		for _, s := range strings.Fields(in.Launch.Sources) {
+			tags = append(tags, "path:"+s)
+		}
+		args, file := in.Launch.concrete(cl)
+		obs["launch_args"], obs["launch_file"], obs["launch_up"] = args, file, ln.up
+		if !ln.up {
+			e := ln.stderr.String()
+			if len(e) > 1500 {
+				e = e[len(e)-1500:]
+			}
+			obs["launch_stderr"] = e
+		}
+	}
 	o.Emit(lib.Case{Name: in.Name, Coq: term, Input: in, Tags: tags,
-		Nontrivial: status == 403 || npost > 0 || swapped || isConfig,
-		Obs: map[string]interface{}{"status": status, "calls": calls, "swapped": swapped, "warn": warn}})
+		Nontrivial: status == 403 || npost > 0 || swapped || in.Pattern == "/config/:opt" || status == 0,
+		Obs: obs})
 }
 
 func (a *Admin) cfgHeader() string {
@@ -654,7 +717,8 @@ func genConfig(r *lib.Rand, k int) C17In {
 		Mode: "L2", Pattern: "/config/:opt", IdClass: "absent"}
 	in.Method = []string{"GET", "PUT", "PUT"}[r.Intn(3)]
 	fillParams(r, &in)
-	in.Opt = []string{"log_level", "log_level", "nsqlookupd_http_addresses", "nsqlookupd_http_addresses", "http_address", "statsd_prefix", "no_such_option"}[r.Intn(7)]
+	in.Opt = []string{"log_level", "log_level", "log_level", "nsqlookupd_http_addresses", "nsqlookupd_http_addresses", "nsqlookupd_http_addresses", "http_address", "statsd_prefix", "no_such_option",
+		"admin_users", "acl_http_header", "allow_config_from_cidr", "nsqd_http_addresses"}[r.Intn(13)]
 	if r.Chance(30) {
 		in.Transport = "wire"
 		in.LocalIP = []string{"127.0.0.1", "127.0.0.2", "127.9.8.7", "127.255.255.254", "127.0.0.3"}[r.Intn(5)]
@@ -697,6 +761,7 @@ func genConfig(r *lib.Rand, k int) C17In {
 
 func runC17(o *lib.Out, r *lib.Rand, n int, replay string) {
 	cl := newCluster()
+	defer closeLaunched()
 	run := func(in C17In) {
 		if in.Body == "@reversed" {
 			ls, _ := modeLists(in.Mode)
@@ -788,5 +853,22 @@ func runC17(o *lib.Out, r *lib.Rand, n int, replay string) {
 		run(genMutating(r, k, rt, idc, ai))
 		k++
 	}
+	// (5) configuration paths: the real binary, every option x {command line, config file, both}
+	extra := 0
+	if n > 1000 {
+		extra = n / 100
+	}
+	launches := genLaunches(r, extra)
+	up := 0
+	for _, li := range launches {
+		for _, in := range launchRequests(r, &k, li) {
+			run(in)
+		}
+		if getLaunched(cl, &li).up {
+			up++
+		}
+	}
 	o.Stat("nsqadmin_instances", len(admins))
+	o.Stat("nsqadmin_launches", len(launches))
+	o.Stat("nsqadmin_launches_up", up)
 }
